@@ -372,6 +372,8 @@ class C17(Prop):
                 yield {"k": "methods", "kind": kind, "v": v + self.seed * 1000 if v >= 3 else v}
                 if kind != "MeasuringCircuit":
                     yield {"k": "copy", "kind": kind, "v": v}
+                    if v < 6:
+                        yield {"k": "copy", "kind": kind, "v": v, "how": ("deepcopy", "pickle")[v % 2]}
         # queries are functions of the receiver's current value: asked again after the first answer was scribbled
         # on, and asked after an in-place change, they answer like a freshly built object does
         for kind in kinds:
@@ -435,12 +437,27 @@ class C17(Prop):
             return self._pure(scn, be, K)
         if scn["k"] == "copy":
             rec = {"op": "copy", "kind": kind}
+            how = scn.get("how", "copy")
             try:
                 o = K.new(kind, scn["v"])
-                if not hasattr(o, "copy"):
+                if how == "copy" and not hasattr(o, "copy"):
                     return []            # (pyclifford.Circuit has no copy method)
                 rec["orig"] = fz(val(o))
-                c = o.copy()
+                if how == "copy":
+                    c = o.copy()
+                else:
+                    # Python's own copying protocols: a refusal is accepted, a copy that is handed out must be faithful
+                    # and independent like any other
+                    rec["how"] = how
+                    try:
+                        if how == "deepcopy":
+                            import copy as _copy
+                            c = _copy.deepcopy(o)
+                        else:
+                            import pickle
+                            c = pickle.loads(pickle.dumps(o))
+                    except Exception:
+                        return []
                 rec["copy"] = fz(val(c))
                 rec["orig1"] = fz(val(o))
                 rec["shares"] = shares(o, c)
